@@ -48,10 +48,12 @@ NCommon == 7
 
 (* quick: per type a covering selection (every id class; every base; every    *)
 (* version class), the full product for Patient only                          *)
+QuickIdLabels == {"len1", "len2", "len63", "len64", "len65", "len0", "upper", "lower", "digits", "hyphen", "dot", "onlydot",
+                  "mixed", "badunderscore", "badslash"}
 QuickPart(k, t) ==
   CASE k <= NCommon -> CommonPart(k, t)
-    [] k = 8  -> RestCases({t}, IdsOf(AllIdLabels), VersOf({"none"}), BasesOf({"none"}))
-    [] k = 9  -> RestCases({t}, IdsOf({"len1", "len64", "mixed"}), VersOf(AllVerLabels \ {"none"}), BasesOf({"none"}))
+    [] k = 8  -> RestCases({t}, IdsOf(QuickIdLabels), VersOf({"none"}), BasesOf({"none"}))
+    [] k = 9  -> RestCases({t}, IdsOf({"len1", "len64"}), VersOf(AllVerLabels \ {"none"}), BasesOf({"none"}))
     [] k = 10 -> RestCases({t}, IdsOf({"mixed"}), VersOf({"none", "v1"}), BasesOf(AllBaseLabels \ {"none"}))
     [] k = 11 -> RestCases({t}, IdsOf({"len64", "len65", "onlydot"}), VersOf({"vmixed"}), BasesOf({"nested", "trailing"}))
     [] k = 12 -> FragCases({t}, IdsOf({"len1", "len64", "mixed", "len65", "badunderscore"}))
